@@ -1,13 +1,13 @@
 #!/bin/sh
 # thorough tier, after the quick analysis passed: (1) the same rules on the other build configurations that select different
-# source files (no cgo; 32-bit), each in its own process; (2) the seeded-mutant self test of the property: every mutant under
+# source files (build tag nocgo selects signature_nocgo.go; the repository does not type-check for 32-bit targets, so no GOARCH=386 run), each in its own process; (2) the seeded-mutant self test of the property: every mutant under
 # /verif/mutations/<Cxx>/ is applied to a scratch copy of /repo (outside /repo and /verif), must still build, and must be reported.
 set -u
 cd "$(dirname "$0")/.." || exit 2
 PROP="$1"
 REPO="${VERIF_REPO:-/repo}"
 st=0
-for cfg in CGO_ENABLED=0 GOARCH=386,CGO_ENABLED=0; do
+for cfg in TAGS=nocgo; do
   echo "== $PROP under $cfg"
   ./bin/lemolint check "$PROP" --repo "$REPO" --verif "$(pwd)" --tier thorough --goenv "$cfg" --no-evidence || st=1
 done
